@@ -536,9 +536,6 @@ def batches(rng, tier):
         b = near(r, ty, a)
         c = near(r, ty, b) if r.chance(1, 2) else rand_value(r, ty, True)
         ops.append(f"tri1 {ty} {enc(a)} {enc(b)} {enc(c)}")
-    # malformed encodings must be rejected by both sides
-    ops += ["rel grid 2,2,1 0,0", "rel tree 1,2,0,0 1,0", "rel opt 1,2 -", "rel bf3 2,0,0,0 0,0,0,0", "rel sp 0,3 0,0",
-            "rel ref 3 0", "rel mat22 1,2,3 1,2,3", "rel nosuch 1 1"]
     yield Batch("rel-random", ops, note="random values with components in [-3,3], trees up to 7 nodes, grids up to 3x3, "
                 "raw_vectors up to 6 elements; half of the pairs differ in at most one place")
     # ---- wrappers expose the wrapped object
